@@ -22,12 +22,15 @@ import harness
 THEOREMS = ["Grc.Opt.model_eq_spec", "Grc.Opt.model_eq_spec_any_order", "Grc.Opt.wfB_sound", "Grc.Opt.exchangeSort_eq",
             "Grc.Opt.exchangeSort_perm", "Grc.Opt.exchangeSort_sorted", "Grc.Opt.exchangeSort_unique", "Grc.Opt.ranges_good",
             "Grc.Opt.free", "Grc.Opt.forced", "Grc.Opt.kept_spec",
-            "Grc.Opt.newIndex_count", "Grc.Opt.newIndex_none", "Grc.Opt.spec_single_optional", "Grc.Fsm.checkCert_correct"]
+            "Grc.Opt.newIndex_count", "Grc.Opt.newIndex_none", "Grc.Opt.spec_single_optional", "Grc.Fsm.checkCert_correct",
+            "Grc.OptGen.loops_as_modelled", "Grc.OptGen.conditions_as_modelled", "Grc.OptGen.locals_as_modelled",
+            "Grc.OptGen.swap_and_erase_as_modelled", "Grc.OptGen.recursion_as_modelled", "Grc.OptGen.prev_range_as_modelled",
+            "Grc.OptGen.omit_loop_as_modelled"]
 
 
 def run(tier, seed, replay=None):
     rep = common.Report("C07", tier, seed)
-    common.lean_gate(rep, THEOREMS)
+    common.lean_gate(rep, THEOREMS, uses_opt=True)
     build = common.build_repo("rel")
     work = common.new_workdir("c07")
     n = 120 if tier == "quick" else 1200
